@@ -30,6 +30,8 @@ macro_rules! explore_sizes {
         } )*
     }};
 }
+include!(concat!(env!("OUT_DIR"), "/gen_sizes.rs"));
+
 macro_rules! walk_sizes {
     ($rng:expr, $walks:expr, $steps:expr, $w:expr, $tot:expr, $($n:literal),*) => {{
         $( for _ in 0..$walks { $tot += t1::walk::<$n>(&mut $rng, $steps, &mut $w); } )*
@@ -94,6 +96,11 @@ fn main() {
             }
             let sb = t1::sparse_big::<4200>(&mut w) + if thorough { t1::sparse_big::<8192>(&mut w) + t1::sparse_big::<16385>(&mut w) } else { t1::sparse_big::<8192>(&mut w) };
             eprintln!("STAT t1_sparse_big transitions={} sizes=4200,8192{}", sb, if thorough { ",16385" } else { "" });
+            // buffer SIZEs named by integer literals of the source under test (and their neighbours)
+            let mut dsz = 0usize;
+            macro_rules! dict_t1 { ($n:expr, $w:expr, $tot:expr) => { $tot += t1::sparse_big::<$n>($w) + t1::repeat::<$n>($w); } }
+            with_dict_sizes!(dict_t1, &mut w, dsz);
+            eprintln!("STAT t1_dictionary_sizes transitions={} sizes={:?}", dsz, DICT_SIZES);
             let ck = t1::cof_kinds::<8>(&mut w);
             eprintln!("STAT t1_cof_error_kinds transitions={}", ck);
             let rp = t1::repeat::<16>(&mut w) + t1::repeat::<64>(&mut w);
